@@ -8,6 +8,7 @@ A case = (kind, tracking, hold, late, initial triple, start clock, event history
 when it finally writes them), i.e. after every report that was handled since they were queued.
 """
 import itertools
+import re
 import multiprocessing
 import os
 import random
@@ -48,21 +49,42 @@ def model_line(c):
     return f"c08 {int(c['hold'])} {int(c['tracking'])} {v} {lo} {hi} {c['start']} " + " ".join(c["events"])
 
 
-def judge_line(c, groups):
+def judge_line(c, groups, one_call=False):
     v, lo, hi = c["initial"]
+    if one_call:
+        groups = [[re.sub(r"^([TFE]):\d+:", r"\1:", o) for o in g] for g in groups]
     items = " ".join(f"{e}={','.join(g) if g else '-'}" for e, g in zip(c["events"], groups))
     return f"c08judge {int(c['tracking'])} {v} {lo} {hi} " + items
 
 
 def run_impl(c):
-    groups, now, loc = setm.run_history(c["kind"], c["tracking"], c["hold"], tuple(c["initial"]), c["events"],
-                                        start_ms=c["start"], late=c["late"], via_device=c.get("via_device", False),
-                                        display=c.get("display"))
-    return groups, now, loc
+    """-> (groups, final clock, local triple, pending_update)"""
+    return setm.run_history(c["kind"], c["tracking"], c["hold"], tuple(c["initial"]), c["events"],
+                            start_ms=c["start"], late=c["late"], via_device=c.get("via_device", False),
+                            display=c.get("display"))
 
 
-def impl_string(groups, now, loc):
-    return "|".join(",".join(g) if g else "-" for g in groups) + f";{now};{loc[0]}:{loc[1]}:{loc[2]}"
+def impl_string(groups, now, loc, pending=False):
+    """canonical form of what the implementation did, comparable with the `c08l` answer (less its last field)"""
+    return ("|".join(",".join(g) if g else "-" for g in groups) + f";{now};{loc[0]}:{loc[1]}:{loc[2]};{int(pending)}")
+
+
+def strip_ids(s):
+    """lifetime form -> one-call form: returns without the call number, no pending flag"""
+    body = s.rsplit(";", 1)[0]
+    return re.sub(r"([TFE]):\d+:(\d+)", r"\1:\2", body)
+
+
+def ncalls(c):
+    return sum(1 for e in c["events"] if e.startswith("c:"))
+
+
+def lifetime_line(c):
+    return "c08l" + model_line(c)[3:]
+
+
+def lifetime_judge_line(c, groups):
+    return "c08ljudge" + judge_line(c, groups)[8:]
 
 
 def rand_triple(rng):
@@ -202,10 +224,114 @@ def random_case(rng, table):
             ev.append("r:%d:%d:%d" % trip)
         if hold and rng.random() < 0.5:
             ev.append("b")
-    if rng.random() < 0.1:
-        ev.append(f"c:{rng.randint(0, 100)}:2:1000")   # a second call on the same run is ignored by the harness and the model
     via_device = T == 5000 and rng.random() < 0.5     # through Device.set(name, value, retries): default timeout
     return mk_case(tid, tracking, hold, late, initial, start, ev, "random", via_device, display)
+
+
+def lifetime_case(rng, table):
+    """2-3 set() calls on one parameter: one after the other (after True, after False) or overlapping; the later
+    values: the original value, the first requested value, out of range, another value in range"""
+    tid = rng.choice(setm.BASE_TARGETS) if rng.random() < 0.7 else rng.choice(
+        ("ecomax:88", "mixer1:5", "mixer0:6", "thermostat1:1", "schedule:heating_circulation:p", "schedule:mixer_10:p", "mixer1:0"))
+    tg = setm.target(tid)
+    tracking = rng.random() < 0.5
+    hold = rng.random() < 0.35
+    late = rng.random() < 0.5
+    lo, hi = rng.randint(0, 20), rng.randint(120, 250)
+    v0 = rng.randint(lo + 1, hi - 1)
+    ev, displays = [], []
+    values = [v0]
+
+    def pick(raw):
+        """(raw value, display value or None) for a call that means `raw`"""
+        if tid in table:
+            if raw not in table[tid]:
+                raw = min(table[tid], key=lambda x: abs(x - raw))
+            return raw, rng.choice(table[tid][raw])
+        return raw, None
+
+    T = rng.choice([1000, 2000, 5000])
+    via_device = T == 5000 and rng.random() < 0.6
+    ncall = rng.choice([2, 2, 3])
+    for k in range(ncall):
+        if k == 0:
+            raw = rng.choice([x for x in range(lo, hi + 1) if x != v0])
+        else:
+            ev.append(f"w:{40 * k}")        # keeps the sleeps of different calls from ending at the same instant
+            y = rng.random()
+            raw = (v0 if y < 0.3 else values[1] if y < 0.5 else rng.choice([hi + 1 + rng.randint(0, 4), max(lo - 1, 0)]) if y < 0.7
+                   else rng.choice([x for x in range(lo, hi + 1) if x not in values] or [v0]))
+        raw, d = pick(raw)
+        values.append(raw)
+        displays.append(d)
+        r = rng.choice([0, 1, 1, 2, 2, 3])
+        ev.append(f"c:{raw}:{r}:{T}")
+        # what happens before the next call: lost / stale / confirmed / still running (overlap)
+        mode = rng.random()
+        steps = rng.randint(0, 2) if mode < 0.35 else rng.randint(2, 7)      # few steps -> the next call overlaps
+        for _ in range(steps):
+            x = rng.random()
+            if hold and x < 0.3:
+                ev.append("b")
+            elif x < 0.45:
+                ev.append("t")
+            elif x < 0.55:
+                ev.append(f"w:{rng.choice([125, 250, 500])}")
+            elif x < 0.6 and not tracking:
+                ev.append("k:1")
+            else:
+                z = rng.random()
+                val = v0 if z < 0.4 else raw if z < 0.75 else rng.choice(values) if z < 0.9 else rng.randint(lo, hi)
+                ev.append("r:%d:%d:%d" % (min(val, tg.maxraw), lo, hi))
+            if hold and rng.random() < 0.4:
+                ev.append("b")
+    for _ in range(rng.randint(0, 8)):
+        ev.append(rng.choice(["t", "t", "b" if hold else "t", "w:125", "r:%d:%d:%d" % (rng.choice(values), lo, hi)]))
+    return mk_case(tid, tracking, hold, late, (v0, lo, hi), rng.choice([0, 0, 1000]), ev, "lifetime", via_device,
+                   displays if any(d is not None for d in displays) else None)
+
+
+LIFE_LETTERS = {
+    "P": ["w:40", "c:10:2:2000"],    # another call: back to the original value
+    "Q": ["w:40", "c:42:2:2000"],    # another call: the first requested value again
+    "U": ["w:40", "c:200:2:2000"],   # another call: out of range
+    "V": ["w:40", "c:55:1:2000"],    # another call: a different value in range
+}
+
+
+def lifetime_words(tier):
+    """all words over {stale, confirming, third, timer} + {four kinds of further call} after a first call"""
+    cfgs = []
+    if tier == "thorough":
+        for tid in setm.BASE_TARGETS:
+            for tracking in (False, True):
+                for retries in (1, 2):
+                    cfgs.append((tid, tracking, False, retries, 5 if tid == "ecomax" else 4, "SCXTPQUV"))
+        for retries in (1, 2):
+            cfgs.append(("ecomax", False, True, retries, 4, "SCTBPQUV"))
+            cfgs.append(("schedule:heating_circulation:p", True, True, retries, 4, "SCTBPQUV"))
+    else:
+        for tid, tracking in (("ecomax", False), ("schedule", True)):
+            for retries in (1, 2):
+                cfgs.append((tid, tracking, False, retries, 3, "SCXTPQUV"))
+        cfgs.append(("mixer", False, True, 2, 3, "SCTBPQUV"))
+        cfgs.append(("thermostat", True, False, 1, 3, "SCXTPQUV"))
+    return cfgs
+
+
+def explore_lifetime(args):
+    tid, tracking, hold, retries, length, alphabet = args
+    out = []
+    for n, word in enumerate(itertools.product(alphabet, repeat=length)):
+        if not any(ch in LIFE_LETTERS for ch in word):
+            continue                                      # one-call words are enumerated elsewhere
+        ev = [f"c:{EXH_RAW}:{retries}:{T_EXH}"]
+        for ch in word:
+            ev.extend(LIFE_LETTERS.get(ch) or LETTERS[ch])
+        c = mk_case(tid, tracking, hold, n % 2 == 1, (10, 0, 100), 0, ev, "lifetime-words")
+        c["word"] = "".join(word)
+        out.append(_run_one(c))
+    return out
 
 
 def sweep_cases(table, tier):
@@ -267,8 +393,8 @@ def explore_config(args):
             counter[0] += 1
             c = mk_case(kind, tracking, hold, late, (10, 0, 100), 0, expand(prefix, retries), "exhaustive", False, display)
             c["word"] = prefix
-            groups, now, loc = run_impl(c)
-            out.append((c, impl_string(groups, now, loc), groups))
+            groups, now, loc, pend = run_impl(c)
+            out.append((c, impl_string(groups, now, loc, pend), groups))
             return done_letter_index(prefix, groups)
         for ch in alphabet:
             d = rec(prefix + ch)
@@ -327,15 +453,29 @@ def outcome_of(groups):
 
 def check_cases(res, triples):
     """triples: list of (case, impl string, groups)"""
-    model = driver_batch(model_line(c) for c, _, _ in triples)
-    judge = driver_batch(judge_line(c, g) for c, _, g in triples)
-    for (c, impl, groups), m, j in zip(triples, model, judge):
+    triples = [t for t in triples if t is not None]
+    model = driver_batch(lifetime_line(c) for c, _, _ in triples)
+    judge = driver_batch(lifetime_judge_line(c, g) for c, _, g in triples)
+    # histories with at most one call are also put to the one-call machine and its judge (for which `holds` is proved)
+    single = [i for i, (c, _, g) in enumerate(triples) if ncalls(c) <= 1 and not any(o[0] == "X" for gg in g for o in gg)]
+    model1 = dict(zip(single, driver_batch(model_line(triples[i][0]) for i in single)))
+    judge1 = dict(zip(single, driver_batch(judge_line(triples[i][0], triples[i][2], True) for i in single)))
+    for idx, ((c, impl, groups), m, j) in enumerate(zip(triples, model, judge)):
+        m = m.rsplit(":", 1)[0] if m != "bad-op" else m       # the model's previous-value is not observable
+        if idx in model1:
+            if judge1[idx] != "pass" and j == "pass":
+                j = "one-call judge: " + judge1[idx]
+            if model1[idx] != strip_ids(m):
+                res.fail("corr", dict(case=c), model1[idx], strip_ids(m), "one-call machine SetM and lifetime machine SetL differ on a one-call history")
+        res.count("calls in the history:%d" % ncalls(c))
         ntx = sum(1 for g in groups for o in g if o[0] == "S")
         res.case((c["kind"], c["tracking"], c["hold"], c["late"], tuple(c["initial"]), c["start"], tuple(c["events"])),
                  nontrivial=ntx > 0)
         res.count("kind:" + setm.target(c["kind"]).kind)
         res.count("target:" + c["kind"])
-        res.count("called with:" + ("raw value" if c.get("display") is None else "display value (" + type(c["display"]).__name__ + ")"))
+        d0 = c.get("display")
+        d0 = next((x for x in d0 if x is not None), None) if isinstance(d0, list) else d0
+        res.count("called with:" + ("raw value" if d0 is None else "display value (" + type(d0).__name__ + ")"))
         if any(e == "k:1" for e in c["events"]):
             res.count("tracking switched on during the run")
         res.count("tracking:%d hold:%d" % (c["tracking"], c["hold"]))
@@ -356,7 +496,7 @@ def check_cases(res, triples):
         elif j != "pass":
             res.fail("spec", inp, m, impl, f"C08.spec violated by the implementation's observation ({j})")
         if impl != m:
-            res.fail("corr", inp, m, impl, "SetM model and Parameter.set differ")
+            res.fail("corr", inp, m, impl, "lifetime machine SetL and Parameter.set differ")
         if ntx >= 2 and c["label"] != "corpus":
             res.sample(dict(input=inp, observed=impl), limit=5)
 
@@ -370,6 +510,8 @@ def run(ctx):
                 "version tracking on / off / switched on during the run x executor held/synchronous x late/immediate encoding x "
                 "initial triple x start clock x history of {set call, stale / confirming / third-value / range-changing "
                 "reports, clock advances, timer expiries, executor answers, frame-version announcements}; corpus first; random histories; "
+                "LIFETIME histories with 2-4 set() calls (after True / after False / overlapping; value = original, = first requested, out of range, other; "
+                "Parameter.set and Device.set) and all words over {stale, confirming, third, timer[, built], four kinds of further call}; "
                 "display sweep (every display value of the scaled rows once); exhaustive words over "
                 "{stale, confirming, third, timer[, built]} after a call (retries 0..3), pruned only after set() returned. "
                 "distinct = distinct (config, history); non-trivial = at least one set request was transmitted")
@@ -377,23 +519,25 @@ def run(ctx):
     for fn, ln in load_corpus("C08"):
         c = parse_corpus_line(ln)
         c["label"] = "corpus"
-        g, now, loc = run_impl(c)
-        triples.append((c, impl_string(g, now, loc), g))
+        triples.append(_run_one(c))
     n = QUICK_RANDOM if tier == "quick" else THOROUGH_RANDOM
     if ctx.get("max_cases"):
         n = min(n, ctx["max_cases"])
     table = display_table()
     cases = [random_case(rng, table) for _ in range(n)]
+    cases.extend(lifetime_case(rng, table) for _ in range(1500 if tier == "quick" else 30000))
     cases.extend(sweep_cases(table, tier))
+    lcfgs = lifetime_words(tier)
     cfgs = exhaustive_configs(tier, table)
     workers = min(8, os.cpu_count() or 1) if tier == "thorough" else min(4, os.cpu_count() or 1)
     if workers > 1:
         with multiprocessing.get_context("fork").Pool(workers) as pool:
             rnd = pool.map(_run_one, cases, chunksize=200)
             exh = pool.map(explore_config, cfgs, chunksize=1)
+            exh += pool.map(explore_lifetime, lcfgs, chunksize=1)
     else:
         rnd = [_run_one(c) for c in cases]
-        exh = [explore_config(a) for a in cfgs]
+        exh = [explore_config(a) for a in cfgs] + [explore_lifetime(a) for a in lcfgs]
     triples.extend(rnd)
     nexh = 0
     for lst in exh:
@@ -415,8 +559,11 @@ def run(ctx):
 
 
 def _run_one(c):
-    g, now, loc = run_impl(c)
-    return (c, impl_string(g, now, loc), g)
+    try:
+        g, now, loc, pend = run_impl(c)
+    except setm.Tie:
+        return None
+    return (c, impl_string(g, now, loc, pend), g)
 
 
 def replay(ctx):
@@ -425,7 +572,7 @@ def replay(ctx):
     c = dict(f["input"])
     res = Result("C08")
     res.rule = "replay of one recorded history"
-    g, now, loc = run_impl(c)
-    check_cases(res, [(c, impl_string(g, now, loc), g)])
-    res.sample(dict(input=c, observed=impl_string(g, now, loc)))
+    t = _run_one(c)
+    check_cases(res, [t])
+    res.sample(dict(input=c, observed=t[1] if t else "tie"))
     return res
